@@ -24,7 +24,15 @@ def gen_interval(rnd):
         k = rnd.random()
         pos += sz + (rnd.randint(1, 2) if k < 0.25 else 0) - (1 if (k > 0.85 and sz > 1) else 0)     # gaps and overlaps
         if sz == 0 and k >= 0.25:
-            pos += 1
+            # a zero-sized block and a block that starts where it sits (only where no earlier block reaches: the choice of the "last"
+            # block among equal offsets inside one group is left to the iteration order of a set and is not modelled)
+            if rnd.random() < 0.5 and all(p_ + s_ <= pos for (_, p_, s_, _) in blocks) and pos < size:
+                sz2 = min(rnd.choice([1, 2, 3]), size - pos)
+                blocks.append((bid, pos, sz2, rnd.random() < 0.6))
+                bid += 1
+                pos += sz2
+            else:
+                pos += 1
     symex = {o: 100 + o for o in range(size) if rnd.random() < 0.15}
     tabs = [{o: 10 * t + o for o in range(size) if rnd.random() < 0.1} for t in range(3)]
     align = {b[0]: rnd.choice([2, 4, 8]) for b in blocks if rnd.random() < 0.2}
@@ -33,7 +41,7 @@ def gen_interval(rnd):
 
 def model_line(c):
     p = ["splitjoin", str(c["addr"]), str(c["size"]), (bytes(range(1, c["init"] + 1)).hex() or "-"), str(len(c["blocks"]))]
-    for b in sorted(c["blocks"], key=lambda b: b[1]):
+    for b in sorted(c["blocks"], key=lambda b: (b[1], b[2])):
         p.append(f"{b[0]} {b[1]} {b[2]} {1 if b[3] else 0}")
     p.append(str(len(c["symex"])) + " " + " ".join(f"{o} {v}" for o, v in sorted(c["symex"].items())))
     for t in c["tabs"]:
@@ -184,10 +192,9 @@ class C10(IRProp):
     tag = "c10"
     extract = ("iu", "ExtractIU.v", "iu_main.ml", "Iu_model")
     genopts = dict()
-    trusted_base = ["Coq 8.16.1 kernel", "hand model IU/Model.v of intervalutils.split_byte_interval / join_byte_intervals (blocks pre-sorted by offset, "
-                    "no two blocks at one offset), tied by running the extracted model against the implementation on random intervals (both the "
+    trusted_base = ["Coq 8.16.1 kernel", "hand model IU/Model.v of intervalutils.split_byte_interval / join_byte_intervals (blocks pre-sorted by offset and size), tied by running the extracted model against the implementation on random intervals (both the "
                     "split result and the joined result are compared)", "extraction: ExtrOcamlBasic only; OCaml driver ocaml/zutil.ml + iu_main.ml"]
-    assumptions = ["no two blocks of an interval start at the same offset (the order of equal keys in sorted()/max() over a set is not modelled)",
+    assumptions = ["two blocks of an interval start at the same offset only as a zero-sized block in front of a sized one that no earlier block overlaps (inside one group the order of equal keys in max() over a set is not modelled)",
                    "alignment entries on intervals themselves are not generated"]
     level_rule = ("random byte intervals of 1-24 bytes, fully or partly initialized, up to 6 code/data blocks with gaps, overlaps and zero-sized "
                   "blocks, symbolic expressions, interval-keyed entries in three offset tables, alignment entries on blocks; plus the IR cases for "
